@@ -4,6 +4,7 @@
 #include <yaclib/async/connect.hpp>
 #include <yaclib/async/contract.hpp>
 #include <yaclib/async/run.hpp>
+#include <yaclib/async/make.hpp>
 #include <yaclib/async/share.hpp>
 #include <yaclib/async/shared_contract.hpp>
 #include <yaclib/async/shared_future.hpp>
@@ -59,6 +60,7 @@ enum Op : int {
   kWhenAnyOwn,  // WhenAny(std::move(own copy), own copy's duplicate): consumes the observer's copy, always last
   kWhenAnyIterAux,  // WhenAny(begin, 2) over {copy, copy of a second shared state that is fulfilled later}: iterator form, two pending shared inputs
   kWhenAllIterAux,  // WhenAll<None>(begin, 2) over the same pair
+  kReturnedByStep,  // a step of a unique chain returns the copy: unwrapping must copy the value out of the shared state, never move it
   kTouchMove,   // if Ready(): std::move(own).Touch() (moves the value out only if provably last); always last
   kGetMove,     // consumes the observer's copy: always last
   kDropCopy,    // destroys the observer's copy: always last
@@ -66,7 +68,7 @@ enum Op : int {
 };
 const char* kOpNames[] = {"ThenInline", "Then(e)", "SubscribeInline", "Subscribe(e)", "Share().Get", "Share(e).ThenInline", "Connect(unique promise)",
                           "Connect(shared promise)", "Wait+Touch", "Get const&", "Ready()+Touch", "copy, use the copy, destroy it", "WhenAll(copy, copy)",
-                          "WhenAny(copy, copy)", "co_await copy", "co_await Await(copy)", "co_await AwaitSticky(copy)", "co_await AwaitOn(e, copy)", "Share(copy, e).Then(f)", "SharedFutureOn::Then(f)", "SharedFutureOn::Subscribe(f)", "WhenAll(move(own), other)", "WhenAny(move(own), copy)", "WhenAny(begin,2){copy, later}", "WhenAll<None>(begin,2){copy, later}", "Ready() then Touch&&", "Get&&", "drop own copy"};
+                          "WhenAny(copy, copy)", "co_await copy", "co_await Await(copy)", "co_await AwaitSticky(copy)", "co_await AwaitOn(e, copy)", "Share(copy, e).Then(f)", "SharedFutureOn::Then(f)", "SharedFutureOn::Subscribe(f)", "WhenAll(move(own), other)", "WhenAny(move(own), copy)", "WhenAny(begin,2){copy, later}", "WhenAll<None>(begin,2){copy, later}", "unique.ThenInline([copy]{ return copy; }).Get", "Ready() then Touch&&", "Get&&", "drop own copy"};
 enum Producer : int { kSetValue, kSetError, kSetException, kDropPromise, kProducerCount };
 const char* kProducerNames[] = {"Set(value)", "Set(error)", "Set(exception)", "drop promise"};
 
@@ -487,6 +489,12 @@ class Case final : public sim::CaseBase {
               sim::Fail("WRONG_RESULT", "observer %d: WhenAll<None>(begin,2)[1] is %s, the second shared state was fulfilled with 555", o, second.Str().c_str());
             }
           }
+        } break;
+        case kReturnedByStep: {
+          auto f = yaclib::MakeFuture<int, E>(0).ThenInline([held = SF{c}](int) {
+            return held;
+          });
+          Saw(o, op, sim::Observe(std::move(f).Get(), "future of a step that returned the copy"));
         } break;
         case kTouchMove: {
           if (own != nullptr && own->Ready()) {
